@@ -55,7 +55,11 @@ std::string hx_run(const std::string &line, std::string &oracle)
     Sieve::set_sieve_size(32);
     Sieve::clear();
     std::map<unsigned, std::unique_ptr<Sieve::iterator>> iters;
-    std::map<unsigned, std::pair<unsigned, unsigned>> itinfo; // slot -> (limit, last returned)
+    struct ItInfo {
+        unsigned limit, last; // last prime the iterator is known to have advanced over
+        bool amb;             // limit+1 is prime and was returned: advanced (cached) or end marker?
+    };
+    std::map<unsigned, ItInfo> itinfo;
     std::vector<std::string> outs;
     for (auto &t : split(w[1], ';')) {
         std::vector<unsigned> out;
@@ -70,7 +74,7 @@ std::string hx_run(const std::string &line, std::string &oracle)
             unsigned slot = std::stoul(p[0]), lim = std::stoul(p[1]);
             iters.erase(slot);
             iters[slot].reset(lim ? new Sieve::iterator(lim) : new Sieve::iterator());
-            itinfo[slot] = {lim, 0};
+            itinfo[slot] = ItInfo{lim, 0, false};
         } else if (t.compare(0, 2, "ix") == 0) {
             auto p = split(t.substr(2), ',');
             unsigned slot = std::stoul(p[0]), cnt = std::stoul(p[1]);
@@ -78,18 +82,39 @@ std::string hx_run(const std::string &line, std::string &oracle)
                 for (unsigned k = 0; k < cnt; k++) {
                     unsigned v = iters[slot]->next_prime();
                     out.push_back(v);
-                    // oracle: next prime after the last one, or limit+1 when exhausted
+                    // oracle (the contract every caller `while ((p = next_prime()) <= limit)` relies on,
+                    // and what SymVerif.C33.IterRun states): the value is the next prime after the last
+                    // one returned (the iterator advances; a cached prime may exceed the limit), or the
+                    // end marker limit+1, allowed only when that next prime exceeds the non-zero limit.
                     auto &inf = itinfo[slot];
-                    unsigned expect = inf.second + 1;
-                    while (!ref_prime(expect))
-                        expect++;
-                    if (inf.first && expect > inf.first)
-                        expect = inf.first + 1;
-                    if (v != expect && oracle == "ok")
+                    auto next_after = [](unsigned q) {
+                        unsigned e = q + 1;
+                        while (!ref_prime(e))
+                            e++;
+                        return e;
+                    };
+                    unsigned expect = next_after(inf.last);
+                    if (inf.amb && v != expect) { // it did advance over limit+1 earlier
+                        inf.last = expect;
+                        inf.amb = false;
+                        expect = next_after(inf.last);
+                    }
+                    bool advance = v == expect;
+                    bool stop = inf.limit && expect > inf.limit && v == inf.limit + 1;
+                    if (!advance && !stop && oracle == "ok")
                         oracle = "FAIL:iter:next_prime returned " + std::to_string(v) + " expected "
-                                 + std::to_string(expect) + " at op " + t;
-                    if (!(inf.first && v == inf.first + 1))
-                        inf.second = v;
+                                 + std::to_string(expect)
+                                 + (inf.limit && expect > inf.limit ? " or " + std::to_string(inf.limit + 1) : "")
+                                 + " at op " + t;
+                    if (advance && stop) { // limit+1 is itself the next prime: cached => advanced, else end marker
+                        inf.amb = true;
+                        stat("iter_ambiguous_end");
+                    } else if (advance)
+                        inf.last = v;
+                    if (stop)
+                        stat("iter_end_markers");
+                    else if (inf.limit && v > inf.limit)
+                        stat("iter_cached_beyond_limit");
                 }
                 stat("iter_calls", cnt);
             }
@@ -174,10 +199,29 @@ void hx_gen(Rng &r, const std::string &tier)
             for (int d = -3; d <= 3; d++)
                 emit("hist ss" + std::to_string(kib) + ";g" + std::to_string(30 + m * 2 * seg + d), "boundary");
     }
+    // the same boundaries from a warm cache: `start` is (largest prime <= L0) + 1, not 30
+    for (unsigned L0 : {100u, 5000u}) {
+        unsigned p = L0;
+        while (!ref_prime(p))
+            p--;
+        for (unsigned m = 1; m <= (th ? 6u : 2u); m++)
+            for (int d = -3; d <= 3; d++)
+                emit("hist sc0;ss1;g" + std::to_string(L0) + ";g" + std::to_string(p + m * 2 * 8192 + d),
+                     "boundary-warm");
+    }
     emit("hist g1;g2;g3;g29;g30;g31;g0", "tiny");
     emit("hist sc0;g1000;g10;g2000;c;g5", "noclear");
     emit("hist in0,0;ix0,12;g100;ix0,5;c;ix0,5", "stale-iter");
     emit("hist in0,50;ix0,20", "iter-limit");
+    // a limited iterator over a cache that already extends beyond its limit (returns cached primes > limit)
+    emit("hist sc0;g1000;in0,50;ix0,20;in1,30;ix1,14;in2,996;ix2,170", "iter-limit-cached");
+    // the end marker limit+1 is itself prime (30+1, 996+1): cold and warm
+    emit("hist in0,30;ix0,13;sc0;g100;ix0,3;in1,30;ix1,13", "iter-limit-cached");
+    // iterators interleaved with clears by generate_primes (stale reads of _primes[_index-1])
+    emit("hist in0,0;in1,0;ix0,300;g7;ix1,40;ix0,40;c;ix1,400;ix0,1;id0;ix1,3", "stale-iter");
+    emit("hist ss1;in0,0;ix0,2000;g3;ix0,2000;g3;ix0,100", "stale-iter");
+    // constructing into an occupied slot destroys (=> clears under) the old iterator
+    emit("hist in0,0;ix0,100;in1,50;ix1,16;in0,0;ix1,3;sc0;in0,0;ix0,50;in0,7;ix1,3;ix0,6", "iter-recreate");
     int n = th ? 600 : 120;
     for (int i = 0; i < n; i++) {
         int len = 2 + (int)r.below(th ? 40 : 12);
